@@ -90,6 +90,12 @@ def guard_exempt(func, sub):
 
 def run(ctx):
     s = ctx.src(CONV)
+    # reading must not consume what the caller passed (`extra_fields` is emptied by the annotation filler: it has to be a copy),
+    # writing changes the file object only
+    from ..lints import caller_arguments_untouched
+    caller_arguments_untouched(ctx, CONV, "R8.caller-arguments-untouched",
+                               {("set_structure", "pdbx_file"): "the file is what set_structure fills",
+                                ("set_component", "pdbx_file"): "the file is what set_component fills"}, 8)
     members = bond_type_members(ctx)
     ctx.count("bondtype_members", len(members))
 
@@ -514,6 +520,8 @@ def downcast_bounds(ctx, rule):
                    ok, "unsigned types may only be tried when the minimum of the array is >= 0", loop.lineno)
 
 MUTANTS = [
+    Mutant("extra-fields-consumed", CONV, "    extra_fields = set() if extra_fields is None else set(extra_fields)\n",
+           "    extra_fields = [] if extra_fields is None else extra_fields\n", "R8.caller-arguments-untouched", "get_structure"),
     Mutant("coord-flattened-fortran", CONV, "coord = np.reshape(array.coord, (array.stack_depth() * array.array_length(), 3))", "coord = np.reshape(array.coord, (array.stack_depth() * array.array_length(), 3), order=\"F\")", "R7.coord-flattening"),
     Mutant("model-numbers-from-zero", CONV, "np.arange(1, array.stack_depth() + 1, dtype=np.int32),", "np.arange(0, array.stack_depth(), dtype=np.int32),", "R7.model-number-column"),
     Mutant("repeat-mask-elementwise", CONV, "Data(np.tile(column.mask.array, repetitions))", "Data(np.repeat(column.mask.array, repetitions))", "R7.column-expansion"),
